@@ -93,11 +93,31 @@ def chain_trees(n, counter):
             counter[0] = c0
 
 
+def nested_choices():
+    """Choices nested in choices, every bracketing of 3 alternatives (and one of 4) that can fail after
+    consuming: `(p | q) | r`, `Choice(Choice(p, q), r)`, `Choice(p, q | r)`, ... are all the flat choice."""
+    a, b, c, x = ('lit', 'a'), ('lit', 'b'), ('lit', ','), ('lit', 'x')
+    pool = [x, ('seq', [a, b]), ('seq', [a, c]), ('seq', [a, b, c]), a, ('right', a, b), ('left', ('seq', [a, a]), b)]
+    out = []
+    for i, p in enumerate(pool):
+        for j, q in enumerate(pool):
+            for k, r in enumerate(pool):
+                if len({i, j, k}) < 3:
+                    continue
+                out.append(('choice', [('choice', [p, q]), r]))
+                out.append(('choice', [p, ('choice', [q, r])]))
+                if (i + j + k) % 4 == 0:
+                    s = pool[(i + j + k + 1) % len(pool)]
+                    out.append(('choice', [('choice', [p, q]), ('choice', [r, s])]))
+                    out.append(('choice', [('choice', [('choice', [p, q]), r]), s]))
+    return out
+
+
 def all_chains(maxn):
     out = []
     for n in range(2, maxn + 1):
         out.extend(chain_trees(n, [0]))
-    return out
+    return out + nested_choices()
 
 
 def dimensions(a, b):
@@ -145,7 +165,7 @@ class C19(Check):
         trees = all_chains(maxn)
         groups = [trees[i:i + 10] for i in range(0, len(trees), 10)]
         alpha = 'ab,'
-        inputs = gens.all_inputs(alpha, 4) + ['a,b,a,b', 'ab,ab,', 'a,a,a,', 'bbbbb', 'b,a,b,a,b']
+        inputs = gens.all_inputs(alpha, 4) + ['a,b,a,b', 'ab,ab,', 'a,a,a,', 'bbbbb', 'b,a,b,a,b', 'x', 'xa', 'aab', 'aab,', 'aax']
         for gi, grp in enumerate(groups):
             if gi % nshards != shard:
                 continue
@@ -157,7 +177,8 @@ class C19(Check):
             g = peg.G(rules)
             a = peg.render(g)
             ma, ea = sut.compile_grammar(a)
-            variants = [[2] * 6000, [2, 1, 2, 2, 3] * 1200, [(gi * 7 + j * j * 3 + j) % 61 + 1 for j in range(600)]]
+            # operator spellings with minimal parentheses / constructor forms throughout / two mixtures
+            variants = [[2] * 6000, [1] * 6000, [2, 1, 2, 2, 3] * 1200, [(gi * 7 + j * j * 3 + j) % 61 + 1 for j in range(600)]]
             for bits in variants:
                 b = peg.render2(g, bits)
                 mb, eb = sut.compile_grammar(b)
